@@ -1,10 +1,26 @@
 """C09 (part c) - iq entities <-> stanzas: what each subclass of IqProtocolEntity adds (its xmlns, its child nodes and their
 attributes / data).  The base class is covered by iq_roundtrip in C09_entities.py.  Every scenario: a symbolic stanza of the
-documented shape -> X.fromProtocolTreeNode -> toProtocolTreeNode, executed on the REAL classes of /repo."""
+documented shape -> X.fromProtocolTreeNode -> toProtocolTreeNode, executed on the REAL classes of /repo.
+
+Notes
+* PingIq, ResultIq, PongResultIq and GroupsIq have no fromProtocolTreeNode of their own: X.fromProtocolTreeNode is the inherited
+  IqProtocolEntity.fromProtocolTreeNode and yields a plain IqProtocolEntity; their scenarios pin the documented shape of the subclass
+  (xmlns, type, to / from, no children) on that path.
+* Second level of the INPUT (a child of a child): the spec-level pure_child(pure_child(n, a), b) does not name the object the code
+  gets from node.getChild(a).getChild(b); the scenario calls n.getChild(a).getChild(b) itself (iqc_privacylist).
+* Lists of children (getAllChildren + loop): the scenario gives the input node a child list of exactly two symbolic nodes - bounded
+  in the length of that list only (see the section below).
+* Three scenarios are PARTIAL because the real code alters a documented field (marked FINDING at the clause that is weakened):
+  iqc_picture_get (picture type), iqc_privacy_set (category value), iqc_sync (last).
+* Not in this file - the real code loses a documented part of the stanza: PushIq / PropsIq / PictureIq (inherited parser: the child
+  node is lost), ResultGetPictureIq (serialiser builds ProtocolTreeNode({"type": ..}, data=..): the tag is a dict, id and type lost),
+  ResultPrivacyIq (serialiser emits an empty <privacy/>).
+* Not in this file - engine: `super(C, C).fromProtocolTreeNode(node)` ends in a traceback (interp.super_attr: 'VClass' object has no
+  attribute 'loc'): ResultPrivacyIq, InfoGroupsIq, LeaveGroupsIq, ListGroupsIq, SubjectGroupsIq, CreateGroupsIq; node.getChild("sync")
+  on the OUTPUT node inside toProtocolTreeNode goes through the assumed-pure getChild contract (an arbitrary node, not the child that
+  was just added; safety:attr-of-None[syncNode.setAttribute] fails): GetSyncIq, ResultSyncIq."""
 from pyvc.lang import *
 from contracts.C09_entities import *
-
-PTN = "yowsup/structs/protocoltreenode.py"
 
 
 @contract("yowsup/structs/protocoltreenode.py", "ProtocolTreeNode.getChild", assumed=True, pure=True,
@@ -217,3 +233,88 @@ def iqc_privacy_set(n: Obj("ProtocolTreeNode"), u0: Obj("ProtocolTreeNode"), u1:
     # FINDING (reported, not claimed here): the value is not read back - fromProtocolTreeNode ends with entity.setValue("all"), so
     # value="none" / "contacts" comes back as value="all".  Only value="all" is a round trip:
     ensures(implies(attr(u0, "value") == "all", same_attr(child(child(m, 0), 0), u0, "value") and same_attr(child(child(m, 0), 1), u1, "value")))
+
+
+@scenario
+def iqc_statuses_result(n: Obj("ProtocolTreeNode"), u0: Obj("ProtocolTreeNode"), u1: Obj("ProtocolTreeNode")):
+    """<iq type="result" from="s.whatsapp.net" id=><status><user jid= t=>{{status}}</user><user jid= t=>{{status}}</user></status></iq>"""
+    requires(iq_shape(n, "result") and attr(n, "from") is not None and pure_child(n, "status") is not None)
+    requires(u0.tag == "user" and u1.tag == "user" and attr(u0, "jid") is not None and attr(u1, "jid") is not None)
+    requires(attr(u0, "t") is not None and attr(u1, "t") is not None)
+    # the entity keeps the statuses in a dict keyed by jid: two <user> with the SAME jid collapse into one (checked: without this
+    # line the child count fails) - a result that lists a jid twice is taken to be outside the documented shape
+    requires(attr(u0, "jid") != attr(u1, "jid"))
+    n.getChild("status").children = [u0, u1]
+    e = ResultStatusesIqProtocolEntity.fromProtocolTreeNode(n)
+    m = e.toProtocolTreeNode()
+    ensures(same_iq_attrs(m, n))
+    ensures(n_children(m) == 1 and child(m, 0).tag == "status" and child(m, 0).data is None and n_children(child(m, 0)) == 2)
+    ensures(child(child(m, 0), 0).tag == "user" and child(child(m, 0), 1).tag == "user")
+    ensures(same_attr(child(child(m, 0), 0), u0, "jid") and same_attr(child(child(m, 0), 1), u1, "jid"))
+    ensures(same_attr(child(child(m, 0), 0), u0, "t") and same_attr(child(child(m, 0), 1), u1, "t"))
+    ensures(child(child(m, 0), 0).data == u0.data and child(child(m, 0), 1).data == u1.data)
+
+
+# ---- protocol_contacts -----------------------------------------------------------------------------------------------
+@scenario
+def iqc_sync(n: Obj("ProtocolTreeNode")):
+    """<iq type="get" id= xmlns="urn:xmpp:whatsapp:sync"><sync sid= index= last="true | false"/></iq>"""
+    requires(iq_shape(n, "get") and attr(n, "xmlns") == "urn:xmpp:whatsapp:sync" and pure_child(n, "sync") is not None)
+    requires(attr(pure_child(n, "sync"), "sid") is not None and len(attr(pure_child(n, "sync"), "sid")) > 0)
+    requires(attr(pure_child(n, "sync"), "index") is not None)
+    requires(attr(pure_child(n, "sync"), "last") == "true" or attr(pure_child(n, "sync"), "last") == "false")
+    raises(ValueError)              # int(index) on an index that is not a numeral
+    e = SyncIqProtocolEntity.fromProtocolTreeNode(n)
+    m = e.toProtocolTreeNode()
+    ensures(same_iq_attrs(m, n))
+    ensures(n_children(m) == 1 and child(m, 0).tag == "sync" and child(m, 0).data is None and n_children(child(m, 0)) == 0)
+    ensures(same_attr(child(m, 0), pure_child(n, "sync"), "sid"))
+    # index: numeric conversion (int() then str()), not decided here; only that it is still there
+    ensures(attr(child(m, 0), "index") is not None)
+    ensures(same_attr(child(m, 0), pure_child(n, "sync"), "last"))          # both values (the parser keeps last != "false")
+
+
+# ---- protocol_groups -------------------------------------------------------------------------------------------------
+@scenario
+def iqc_groups(n: Obj("ProtocolTreeNode")):
+    """<iq type="get | set" id= xmlns="w:g2" to={{group_jid}}/>"""
+    requires((iq_shape(n, "get") or iq_shape(n, "set")) and attr(n, "xmlns") == "w:g2" and attr(n, "to") is not None)
+    e = GroupsIqProtocolEntity.fromProtocolTreeNode(n)
+    m = e.toProtocolTreeNode()
+    ensures(same_iq_attrs(m, n))
+    ensures(attr(m, "xmlns") == "w:g2" and attr(m, "from") is None)
+    ensures(n_children(m) == 0)
+
+
+# ---- second round: classes whose serialiser was repaired in /repo, and the `super(C, C).fromProtocolTreeNode` classes ---------------
+@scenario
+def iqc_picture_get_result(n: Obj("ProtocolTreeNode")):
+    """<iq type="result" from= id=><picture type="image | preview" id=>{{bytes}}</picture></iq>"""
+    requires(iq_shape(n, "result") and attr(n, "from") is not None and attr(n, "xmlns") is None)
+    requires(pure_child(n, "picture") is not None and attr(pure_child(n, "picture"), "id") is not None)
+    requires(attr(pure_child(n, "picture"), "type") == "image" or attr(pure_child(n, "picture"), "type") == "preview")
+    e = ResultGetPictureIqProtocolEntity.fromProtocolTreeNode(n)
+    m = e.toProtocolTreeNode()
+    ensures(same_iq_attrs(m, n))
+    ensures(n_children(m) == 1 and child(m, 0).tag == "picture" and n_children(child(m, 0)) == 0)
+    ensures(same_attr(child(m, 0), pure_child(n, "picture"), "type") and same_attr(child(m, 0), pure_child(n, "picture"), "id"))
+    ensures(child(m, 0).data == pure_child(n, "picture").data)
+
+
+@scenario
+def iqc_privacy_result(n: Obj("ProtocolTreeNode"), u0: Obj("ProtocolTreeNode"), u1: Obj("ProtocolTreeNode")):
+    """<iq type="result" from= id=><privacy><category name= value=/><category name= value=/></privacy></iq>"""
+    requires(iq_shape(n, "result") and attr(n, "from") is not None and attr(n, "xmlns") is None and pure_child(n, "privacy") is not None)
+    requires(u0.tag == "category" and u1.tag == "category" and attr(u0, "name") is not None and attr(u1, "name") is not None)
+    requires(attr(u0, "value") is not None and attr(u1, "value") is not None)
+    # the entity keeps the settings in a dict keyed by name: two categories with the same name collapse into one
+    requires(attr(u0, "name") != attr(u1, "name"))
+    n.getChild("privacy").children = [u0, u1]
+    e = ResultPrivacyIqProtocolEntity.fromProtocolTreeNode(n)
+    m = e.toProtocolTreeNode()
+    ensures(same_iq_attrs(m, n))
+    ensures(n_children(m) == 1 and child(m, 0).tag == "privacy" and child(m, 0).data is None and n_children(child(m, 0)) == 2)
+    ensures(child(child(m, 0), 0).tag == "category" and child(child(m, 0), 1).tag == "category")
+    ensures(child(child(m, 0), 0).data is None and child(child(m, 0), 1).data is None)
+    ensures(same_attr(child(child(m, 0), 0), u0, "name") and same_attr(child(child(m, 0), 1), u1, "name"))
+    ensures(same_attr(child(child(m, 0), 0), u0, "value") and same_attr(child(child(m, 0), 1), u1, "value"))
